@@ -289,4 +289,37 @@ theorem deliverTx_fail_obsNoLimiter {s : St} {tx : TxIn} (hf : ∀ o, (deliverTx
   · rw [e]
   · rw [e]; exact handleTx_fail_obsNoLimiter hc
 
+
+/-! ### later transactions -/
+
+theorem findOrNew_active (s : St) (a : Hex) : (s.findOrNewAcct true a).1.active = s.active := by
+  have f := FinFrame_findOrNew s a
+  unfold FinFrame at f; rw [f]
+
+/-- The one read that tells an empty record from an absent one is the sender-existence check of
+    `NewTrxContext`.  With a positive minimum fee it makes no difference to the outcome: a transaction
+    from an address that has no record (before the failed transaction) or an empty record (after it)
+    fails in both states. -/
+theorem later_from_fresh_fails {s s' : St} {h : Int} {later : TxIn} {x : Hex}
+    (hs : s.accts.fin[ledgerKey later.from_]? = none)
+    (he : s'.accts.fin[ledgerKey later.from_]? = some (emptyAcct x))
+    (hF : FeeSane s') (hm : 0 < s'.active.minTrxFee) :
+    (handleTx s true h later).2.code ≠ 0 ∧ (handleTx s' true h later).2.code ≠ 0 := by
+  constructor
+  · intro hc
+    obtain ⟨_, sender, _, _, _, hf, _⟩ := handleTx_ok_inv hc
+    rw [findAcct_true, hs] at hf; simp at hf
+  · intro hc
+    obtain ⟨_, sender, s1, s2, g, hf, hv, _, _⟩ := handleTx_ok_inv hc
+    rw [findAcct_true, he] at hf
+    simp at hf; subst hf
+    obtain ⟨h0, h1, _⟩ := validateTrx_ok hv
+    have hF0 : FeeSane (s'.findOrNewAcct true later.to).1 := by
+      unfold FeeSane at hF ⊢; rw [findOrNew_active]; exact hF
+    obtain ⟨_, _, ef, hle⟩ := fee_facts hF0 h0 h1
+    obtain ⟨_, _, _, _, _, _, hmin, _⟩ := cv0_ok h0
+    rw [findOrNew_active, ef] at hmin
+    have : (emptyAcct x).bal = 0 := rfl
+    omega
+
 end Rigo
